@@ -128,6 +128,10 @@ def run(p: Program, rep: Report, tier: str) -> None:
         if accepted == "bare":
             # startswith(prefix) AND a test of the ONE character that follows the prefix: '' (path == prefix) or '/' (a new segment)
             def _next_char(t):
+                # path[len(prefix):][:1] - the rest after the prefix, then its first character
+                if t[0] == "sub" and t[2][0] == "slice" and t[2][1] in (("const", None), ("const", 0)) and t[2][2] == ("const", 1) and t[1][0] == "sub" and t[1][1] == ("param", "path") \
+                        and t[1][2][0] == "slice" and t[1][2][1][0] == "call" and t[1][2][1][1] == ("builtin", "len") and t[1][2][1][2] == (prefix,) and t[1][2][2] == ("const", None):
+                    return True
                 if not (t[0] == "sub" and t[1] == ("param", "path") and t[2][0] == "slice"):
                     return False
                 lo, hi = t[2][1], t[2][2]
